@@ -70,6 +70,8 @@ type Rec struct {
 	findings   []Finding
 	replay     string
 	shrinking  bool
+	curSub     string
+	cur        any
 }
 
 func envInt(name string, def int64) int64 {
@@ -228,6 +230,9 @@ func (r *Rec) Sample(v any) {
 // Journal writes the in-flight case so that a process death can be
 // attributed to it by the driver.
 func (r *Rec) Journal(sub string, c any) {
+	r.mu.Lock()
+	r.curSub, r.cur = sub, c
+	r.mu.Unlock()
 	if r.journal == nil {
 		return
 	}
@@ -294,7 +299,31 @@ func (r *Rec) Rapid(t *testing.T, sub string, checks int, prop func(t *rapid.T))
 	flag.Set("rapid.nofailfile", "true")
 	t.Run(sub, func(t *testing.T) {
 		defer r.Commit()
-		rapid.Check(t, prop)
+		rapid.Check(t, func(rt *rapid.T) {
+			r.mu.Lock()
+			r.cur = nil
+			r.mu.Unlock()
+			defer func() {
+				// a panic escaping the property (from the code under test or from
+				// the harness) must not lose the case: record the journalled
+				// in-flight case, then let rapid see the panic
+				if p := recover(); p != nil {
+					tn := fmt.Sprintf("%T", p)
+					if !strings.Contains(tn, "stopTest") && !strings.Contains(tn, "invalidData") {
+						r.mu.Lock()
+						cur, cs := r.cur, r.curSub
+						r.mu.Unlock()
+						if cur != nil {
+							r.Fail(cs, cur, "panic while checking the case: %v", p)
+						} else {
+							r.Fail(sub, map[string]any{"note": "no journalled case"}, "panic before the case was journalled: %v", p)
+						}
+					}
+					panic(p)
+				}
+			}()
+			prop(rt)
+		})
 	})
 }
 
